@@ -1144,6 +1144,30 @@ pub fn run(a: &ShardArgs) -> serde_json::Value {
             }
         }
     }
+    // runs without any feature: nothing at all, or parser errors only (the summary is still
+    // written, once, right after run-Finished, and states the errors)
+    if a.mine(3) {
+        for (xi, stream) in degenerate_streams().iter().enumerate() {
+            let cfg = Config::default();
+            for ni in 0..VARIANTS {
+                let (nest, src) = variant(&cfg, ni);
+                let stream = variant_stream(stream, ni);
+                let (obs, seen, at_fin) = run_nest(nest, &src, &stream);
+                evaluations += 1;
+                let vs = check(nest, &stream, &obs, &seen, &at_fin);
+                if !vs.is_empty() {
+                    violations.push(json!({
+                        "engine": "hist", "property": "C12", "tier": a.tier,
+                        "extra_index": xi, "nest_index": ni, "nest": format!("{nest:?}"),
+                        "key": vs.iter().map(|v| v.key.clone()).collect::<Vec<_>>().join("+"),
+                        "message": vs.iter().map(|v| format!("[{}] {}", v.key, v.msg)).collect::<Vec<_>>().join(" | "),
+                        "finding": serde_json::Value::Null,
+                        "stream": stream.iter().map(Ev::short).collect::<Vec<_>>(),
+                    }));
+                }
+            }
+        }
+    }
     json!({
         "property": "C12", "tier": a.tier,
         "total_configs": cases.len(), "configs_done": done, "configs_skipped_budget": skipped,
@@ -1155,7 +1179,29 @@ pub fn run(a: &ShardArgs) -> serde_json::Value {
     })
 }
 
+/// Streams of runs that contain no feature at all.
+pub fn degenerate_streams() -> Vec<Vec<Ev>> {
+    let pf = |n: usize| Ev::ParsingFinished { features: 0, rules: 0, scenarios: 0, steps: 0, parser_errors: n };
+    vec![
+        vec![Ev::Started, pf(0), Ev::Finished],
+        vec![Ev::Started, Ev::ParseErr("e0".into()), pf(1), Ev::Finished],
+        vec![Ev::Started, Ev::ParseErr("e0".into()), Ev::ParseErr("e1".into()), pf(2), Ev::Finished],
+    ]
+}
+
 pub fn replay(j: &serde_json::Value) -> i32 {
+    if let Some(xi) = j["extra_index"].as_u64() {
+        let ni = j["nest_index"].as_u64().unwrap() as usize;
+        let cfg = Config::default();
+        let (nest, src) = variant(&cfg, ni);
+        let stream = variant_stream(&degenerate_streams()[xi as usize], ni);
+        let (obs, seen, at_fin) = run_nest(nest, &src, &stream);
+        let vs = check(nest, &stream, &obs, &seen, &at_fin);
+        for v in &vs {
+            println!("violation C12 [{}]: {}", v.key, v.msg);
+        }
+        return i32::from(!vs.is_empty());
+    }
     let thorough = j["tier"].as_str() == Some("thorough");
     let idx = j["case_index"].as_u64().unwrap() as usize;
     let ni = j["nest_index"].as_u64().unwrap() as usize;
